@@ -1,7 +1,7 @@
 #!/bin/sh
 # seedrun.sh <seed-or-mutant patch> <prop> [<prop>...]: apply the patch in a scratch worktree of /repo (never /repo
 # itself), run the listed checks against it through VERIF_REPO, remove the worktree. Prints one line per check.
-patch="$1"; shift
+patch=$(readlink -f "$1"); shift
 name=$(basename $(dirname "$patch"))-$(basename "$patch" .patch)
 W=/tmp/seedrun-$$
 git -C /repo worktree add -q --detach $W HEAD || exit 2
